@@ -28,7 +28,9 @@ func Property(id string) *PropSpec { return props[id] }
 func init() {
 	props["C01"] = &PropSpec{ID: "C01", Engines: []string{"EDGE"}, Rules: []string{"EDGE"},
 		Explanation: "wip"}
-	props["C03"] = &PropSpec{ID: "C03", Engines: []string{"PRIO"}, Rules: []string{"PRIO-N", "PRIO-T", "PRIO-W", "PRIO-P", "PRIO-D", "INPUT"},
+	props["C03"] = &PropSpec{ID: "C03", Engines: []string{"PRIO", "EDGE"}, Rules: []string{"PRIO-N", "PRIO-T", "PRIO-W", "PRIO-P", "PRIO-D", "INPUT", "EDGE-V"},
+		Explanation: "wip"}
+	props["C06"] = &PropSpec{ID: "C06", Engines: []string{"TERM", "PANIC", "HEAP", "OPTS", "SHARED"}, Rules: []string{"TERM", "PANIC", "PACK", "STRUCTOF", "HEAP-H3", "NILOPT", "REFLVALID", "ALIAS"},
 		Explanation: "wip"}
 	props["C07"] = &PropSpec{ID: "C07", Engines: []string{"PRIO"}, Rules: []string{"PRIO-W", "PRIO-D", "PRIO-P"},
 		Explanation: "wip"}
